@@ -66,7 +66,7 @@ func (rn *runner) ask(k int, name, req string) *report {
 
 func (rn *runner) bytesCase(k int, c *codec, b []byte) *report {
 	rep := rn.ask(k, c.name, "B "+c.name+" "+hx.Hex(b))
-	if c.modelled {
+	if c.modelled && len(b) <= maxModelInput {
 		rn.o.Line("dec "+c.name+" "+hx.Hex(b), rep.obs)
 	}
 	switch {
@@ -79,6 +79,9 @@ func (rn *runner) bytesCase(k int, c *codec, b []byte) *report {
 	}
 	return rep
 }
+
+// inputs over this size go to the real decoders only (the driver works on linked lists of bytes)
+const maxModelInput = 4 << 20
 
 func pickCodec(r *prng.R) *codec {
 	w := make([]int, len(codecs))
@@ -188,7 +191,9 @@ func (rn *runner) codecCase(k int, r *prng.R) {
 				// the serialiser against the model on every generated item, over the limits too
 				var s sb
 				showItem(&s, ib.it, 0)
-				if eb, err := encBytes(ib); err == nil {
+				if s.Len() > 512<<10 {
+					// (the dump unfolds shared references: keep the line size reasonable)
+				} else if eb, err := encBytes(ib); err == nil {
 					o.Line("enc "+c.name+" "+s.String(), fmt.Sprintf("%s size=%d", hx.Hex(eb), len(eb)))
 				} else {
 					o.Line("enc "+c.name+" "+s.String(), "err")
